@@ -113,7 +113,13 @@ def smear_direction_rule(chk, repo, clause):
     # frequency (the streak turns clockwise with the angle; the other sign is its mirror image for every oblique angle)
     p_ok, p_det, n_p = None, 'undecided: the sinc argument is not a sum of (trig factor) x (frequency grid) terms', 0
     for p in returns(sp):
-        for a in [x for x in nf.value_atoms(p.ret) if is_app(x, 'sinc')]:
+        sincs = {x for x in nf.value_atoms(p.ret) if is_app(x, 'sinc')}
+        if len(sincs) > 1:
+            p_ok = False
+            p_det = ('the transfer function is a product of ' + ' and '.join(sorted(nf.fmt_atom(x)[:50] for x in sincs)[:2]) +
+                     ': one sinc per axis is the blur of a rectangle, a smear is ONE sinc of the frequency along its direction')
+            continue
+        for a in sincs:
             arg = a[2][0]
             if not isinstance(arg, Poly) or len(arg.terms) != 2:
                 continue
@@ -203,6 +209,25 @@ def run(chk, repo, tier):
             indep = not uses_outside_shape(kernel, 'img')
             chk.ob('C19-c', 'D-must-not-depend', key, f'kernel independent of the pixel values [{tag}]', indep,
                    f'kernel = {fmt(kernel)[:200]}' + ('' if indep else ' depends on the pixel values'), f.loc(p.node))
+            # the transforms run at the size of the frame: an explicit output size (`s=`) is (rows, cols) of the frame or absent
+            resized = []
+            for x_ in nf.value_atoms(p.ret):
+                if is_app(x_, ('fft.ifft2', 'fft.fft2', 'fft.fftn', 'fft.ifftn')):
+                    def _s_values(v, out):
+                        if isinstance(v, Tup):
+                            if len(v) == 2 and isinstance(v.items[0], Const) and v.items[0].value == 's':
+                                out.append(v.items[1])
+                            else:
+                                for i_ in v.items:
+                                    _s_values(i_, out)
+                        return out
+                    for sv in [z for y in x_[2][1:] for z in _s_values(y, [])]:
+                        want_s = [nf.index(nf.attr(S('img'), 'shape'), C(k_)) for k_ in (0, 1)]
+                        if not (isinstance(sv, Tup) and len(sv) == 2 and list(sv.items) == want_s) and sv != nf.attr(S('img'), 'shape'):
+                            resized.append(f'{x_[1]}(..., s={fmt(sv)[:60]})')
+            chk.ob('C19-a', 'U-shape', key, f'the transforms keep the (rows, cols) of the frame [{tag[:60]}]', not resized,
+                   '; '.join(resized[:1]) + (': the frame is cropped / zero-padded to another shape (transposed for non-square frames)'
+                                             if resized else ''), f.loc(p.node))
             # ---- C19-a shapes
             sh = Shapes(decl)
             ks = sh.of(kernel, where='kernel')
